@@ -140,6 +140,18 @@ func Gen(caseID, tier string) (json.RawMessage, error) {
 	tp.Settings.DecodePAC = r.Chance(1, 2)
 	tp.StoreKeepsSlice = tp.SessionMgr && r.Chance(1, 3)
 	et := etypes[r.Intn(len(etypes))]
+	if r.Chance(1, 50) {
+		// history shape: one user sends 65-300 valid tokens and then one of the first three again
+		n := r.Range(65, 100)
+		if r.Chance(1, 2) {
+			n = r.Range(130, 300)
+		}
+		for i := 0; i < n; i++ {
+			tp.Reqs = append(tp.Reqs, Req{Header: "token", Framing: "init-krb5", Mech: "apreq", Spec: baseSpec(et), ReplayOf: -1, ThinkNs: int64(r.Range(1, 2000)) * 1000, Cookie: "none"})
+		}
+		tp.Reqs = append(tp.Reqs, Req{Header: "token", Framing: "init-krb5", Mech: "apreq", Spec: baseSpec(et), ReplayOf: r.Intn(3), ThinkNs: int64(r.Range(1, 2000)) * 1000, Cookie: "none"})
+		return core.MustJSON(tp), nil
+	}
 	nr := r.Range(1, 8)
 	apiRun := r.Chance(1, 6)
 	for i := 0; i < nr; i++ {
